@@ -28,7 +28,7 @@ func init() {
 			ruleSelectLogsWindow(r)
 			ruleMergeIter(r) // windows are filled from a time-ordered sample stream (fillWindow stops at the first sample after the window)
 			ruleMapCopyWriteBack(r, []string{metricPkg, enginePkg}, 2)
-			ruleOpenLog(r)      // the lower edge of the first window: since/until as the daemon reads them
+			ruleOpenLog(r) // the lower edge of the first window: since/until as the daemon reads them
 		},
 	})
 }
